@@ -3359,6 +3359,22 @@ The what argument tells us what sort of state is expected (allowed values are de
                 continue
 
             if utils.isRealFilename(dir):
+                #
+                # A declaration that stays (in any stack on the path, for this flavor or a fall-back flavor) may be
+                # installed in this very directory, or inside it; then the directory isn't ours to delete.  It goes
+                # with the last of the products that live in it
+                #
+                top = os.path.normpath(dir)
+                inUse = [p for p in self._findDeclarations()
+                         if not (p == product and p.db == product.db) and utils.isRealFilename(p.dir) and
+                         (os.path.normpath(p.dir) == top or
+                          os.path.normpath(p.dir).startswith(top.rstrip(os.sep) + os.sep))]
+                if inUse:
+                    if not self.quiet:
+                        print("Not removing %s: %s %s is installed there" %
+                              (dir, inUse[0].name, inUse[0].version), file=utils.stdwarn)
+                    continue
+
                 if self.noaction:
                     print("rm -rf %s" % dir)
                 else:
